@@ -236,6 +236,26 @@ def run(model, col, tier):
 
     c10.check_compat_guards(model, col, "R05.9")
     c10.check_exported_unique(model, col, "R05.8")
+    # a call is accepted only after its arguments were matched against the candidate that will run (= R10.1 / R10.2: every
+    # path of FindFunction scores the arguments) - an unmatched call reaches the callee with operands of other types
+    sub = Collector("C10")
+    c10.run(model, sub, "quick")
+    for ob in sub.obligations:
+        if ob.rule in ("R10.1", "R10.2"):
+            ob.detail = f"[{ob.rule}] " + (ob.detail or "")
+            ob.rule = "R05.8"
+            col.obligations.append(ob)
+    # what a compilation produces depends on its own source only (= R18.2: nothing mutable at module / class level is written
+    # while compiling): a table that survives into the next compilation hands it types and names of another program
+    from . import c18
+
+    sub = Collector("C18")
+    c18.run(model, sub, "quick")
+    for ob in sub.obligations:
+        if ob.rule == "R18.2":
+            ob.detail = f"[{ob.rule}] " + (ob.detail or "")
+            ob.rule = "R05.9"
+            col.obligations.append(ob)
     from . import c09 as _c09
 
     _c09.check_builtin_names(model, col, "R05.9")
